@@ -218,6 +218,31 @@ func TestC13_Analyzer(t *testing.T) {
 		if anchored && seen[wctx.ProjectTypeGeneric] {
 			t.Fatalf("'generic' reported although a documented marker file is present: files=%v", names)
 		}
+		// edit package.json / Makefile in place (same listing) and analyse the same path again:
+		// the result must be what a fresh directory with the new content gives
+		edited := false
+		for _, n := range names {
+			if n == "package.json" || n == "Makefile" || n == "makefile" {
+				contents[n] = c13FileContent(t, n)
+				if err := os.WriteFile(filepath.Join(d1, n), contents[n], 0o644); err != nil {
+					t.Fatalf("harness: %v", err)
+				}
+				edited = true
+			}
+		}
+		if edited {
+			d3 := mkdirWork("c13c-")
+			defer os.RemoveAll(d3)
+			c13Populate(t, d3, names, contents)
+			again, _ := an.AnalyzeDirectory(d1)
+			fresh, _ := wctx.NewAnalyzer().AnalyzeDirectory(d3)
+			if !reflect.DeepEqual(norm(again), norm(fresh)) {
+				t.Fatalf("after editing project files in place the directory is analysed as %+v, a fresh directory with the same content as %+v; files=%v", norm(again), norm(fresh), names)
+			}
+			if !reflect.DeepEqual(again.GetContextBoosts(), fresh.GetContextBoosts()) {
+				t.Fatalf("boosts after an in-place edit %v differ from a fresh directory's %v", again.GetContextBoosts(), fresh.GetContextBoosts())
+			}
+		}
 		b1, b2 := c1.GetContextBoosts(), c1.GetContextBoosts()
 		if !reflect.DeepEqual(b1, b2) {
 			t.Fatalf("GetContextBoosts differs between two calls: %v vs %v", b1, b2)
